@@ -106,9 +106,11 @@ std::string pick_position(Tape& t, Report& rep)
     return ref::to_fen(ref::startpos());
 }
 
-// Unwinding after a seen stop costs at most ~3 visits per remaining sibling move per ply (3 x 218 x 80 = 52k as an absolute
-// ceiling); measured on the unchanged tree: <= 100 visits in 99.6% of schedules, maximum below 1,000.
-const long VISIT_BOUND = 60000;
+// Unwinding after a seen stop: every node on the stack makes at most ~3 further calls per remaining move, each of which returns
+// at once.  With realistic stacks (main search <= ~10 plies x <= 40 moves, quiescence <= 39 plies x captures only) that is a few
+// thousand visits; measured on the unchanged tree: <= 100 visits in 99% of schedules, maximum below 2,000.  The bound leaves a
+// factor of ten on top of the measured maximum.
+const long VISIT_BOUND = 20000;
 
 // Free-running trials: no parking.  go infinite, let the search run for a generated number of node visits, then stop.  The
 // stop must be honoured wherever it lands (also in windows between the hook points).  The bound is counted from the moment the
